@@ -926,6 +926,55 @@ impl RunResult {
     }
 }
 
+/// Drives a `send::HtmlRewriter`, moving it to a freshly spawned thread for every write() and for end().
+/// `between` is called on the driving thread between the calls (yield / sleep injection).
+pub fn run_migrating(cfg: &Config, input: &[u8], cuts: &[usize], between: &mut dyn FnMut()) -> Result<RunResult, String> {
+    let sh = new_shared(cfg);
+    let st = send::build(cfg, &sh)?;
+    let mut rw: Option<HtmlRewriter<'static, LogSink, lol_html::send::SendHandlerTypes>> = Some(HtmlRewriter::new(st, LogSink(sh.clone())));
+    let mut pos = 0usize;
+    let mut failed = false;
+    let mut bounds: Vec<usize> = cuts.iter().copied().filter(|&c| c <= input.len()).collect();
+    bounds.push(input.len());
+    for &b in &bounds {
+        let b = b.max(pos);
+        let chunk: Vec<u8> = input[pos..b].to_vec();
+        lock(&sh).log.push(Rec::CallWrite(chunk.len()));
+        let mut r = rw.take().unwrap();
+        let (r2, res) = std::thread::spawn(move || {
+            let res = catch_unwind(AssertUnwindSafe(|| r.write(&chunk)));
+            (r, to_res(res))
+        })
+        .join()
+        .map_err(|_| "migration thread died".to_string())?;
+        rw = Some(r2);
+        {
+            let mut s = lock(&sh);
+            let out_len = s.out_len;
+            s.log.push(Rec::Ret { res: res.clone(), out_len, mem: 0 });
+        }
+        pos = b;
+        if res != Res::Ok {
+            failed = true;
+            break;
+        }
+        between();
+    }
+    if !failed {
+        lock(&sh).log.push(Rec::CallEnd);
+        let r = rw.take().unwrap();
+        let res = std::thread::spawn(move || to_res(catch_unwind(AssertUnwindSafe(move || r.end())))).join().map_err(|_| "migration thread died".to_string())?;
+        let mut s = lock(&sh);
+        let out_len = s.out_len;
+        s.log.push(Rec::Ret { res, out_len, mem: 0 });
+    } else {
+        drop(rw.take());
+    }
+    let log = std::mem::take(&mut lock(&sh).log);
+    let invocations = lock(&sh).invocations;
+    Ok(RunResult { log, hook: vec![], written: pos, invocations })
+}
+
 pub fn run_str(cfg: &Config, input: &str) -> Result<(Result<String, ErrKind>, RunResult), String> {
     if cfg.send {
         send::run_str(cfg, input)
